@@ -73,8 +73,13 @@ class DgramHarness:
             with self.wld.as_node(node):
                 cfgd = dict(plan['cfg'].get(name, plan['cfg'].get('*', {})))
                 if self.kind == 'udpcl':
+                    poll_ms = cfgd.pop('poll_ms', None)
                     cfg = udpcl.config.Config(**cfgd)
                     cfg.init_listen = [udpcl.config.ListenConfig(address=UDP_ADDR[name], port=4556)]
+                    if poll_ms:
+                        # periodic return-path messages to the other agent: non-transfer traffic in the same conversation
+                        other = 'U2' if name == 'U1' else 'U1'
+                        cfg.polling = [udpcl.config.PollConfig(address=UDP_ADDR[other], port=4556, interval_ms=poll_ms)]
                     cfg._bus_conn = self.bus[name]
                     self.agent[name] = mod.agent.Agent(cfg)
                 else:
@@ -135,11 +140,17 @@ class DgramHarness:
             self.wld.cur = None
             self.wld.log('callback-hang')
 
-    def settle(self, window_us=3 * SEC, max_steps=100000):
+    def settle(self, window_us=3 * SEC, max_steps=100000, limit_us=None):
+        ''' Run until nothing is due within ``window_us``. Periodic traffic (polling) never lets that happen: with polling
+        configured stop after ``limit_us`` (default 40 s, longer than the largest paced transfer takes) of simulated time. '''
         wld = self.wld
         count = 0
+        if limit_us is None:
+            polling = any((self.plan['cfg'].get(name) or self.plan['cfg'].get('*') or {}).get('poll_ms') for name in ('U1', 'U2'))
+            limit_us = 40 * SEC if polling else 10**12
+        deadline = wld.now + limit_us
         try:
-            while count < max_steps:
+            while count < max_steps and wld.now <= deadline:
                 count += 1
                 if wld.steps >= wld.max_steps:
                     wld.capped = 'steps'
